@@ -57,7 +57,7 @@ def rowVerify (H : HashFn) (d : RowNsData) (ns : Bytes) (row : Nat) (dah : Dah) 
     match dah.rowRoot? row with
     | none => .error .edsIndexOutOfRange
     | some root =>
-      match verifyCompleteNamespace H d.proof root (d.shares.map Share.data) ns with
+      match luminaVerifyCompleteNamespace H d.proof root (d.shares.map Share.data) ns with
       | .ok () => .ok ()
       | .error e => .error (.rangeProof e)
 
